@@ -231,6 +231,70 @@ pub fn load_and_invoke(text: &str) -> &'static str {
   }
 }
 
+/// The unmutated model invoked with an extreme value (a FEEL text of the C05 alphabet) as the value of every input data at
+/// once, of each input data alone (the others absent / a number), and of every name at all (an entry named like an invocable).
+pub fn invoke_with_input(text: &str, value_text: &str) -> &'static str {
+  let defs = match dmntk_model::parse(text) {
+    Ok(d) => d,
+    Err(_) => return "parse-error",
+  };
+  let me = match ModelEvaluator::new(&defs) {
+    Ok(m) => m,
+    Err(_) => return "build-error",
+  };
+  let scope = dmntk_feel::Scope::default();
+  let value = match dmntk_feel_parser::parse_expression(&scope, value_text, false).ok().and_then(|n| dmntk_feel_evaluator::evaluate(&scope, &n).ok()) {
+    Some(v) => v,
+    None => return "value-does-not-evaluate",
+  };
+  let mut names: Vec<String> = vec![];
+  for d in defs.decisions() {
+    names.push(d.name().to_string());
+  }
+  for d in defs.business_knowledge_models() {
+    names.push(d.name().to_string());
+  }
+  for d in defs.decision_services() {
+    names.push(d.name().to_string());
+  }
+  let inputs: Vec<Name> = defs.input_data().iter().map(|i| Name::from(i.name())).collect();
+  let mut contexts: Vec<FeelContext> = vec![];
+  let mut all = FeelContext::default();
+  for n in &inputs {
+    all.set_entry(n, value.clone());
+  }
+  contexts.push(all);
+  for k in 0..inputs.len() {
+    let mut alone = FeelContext::default();
+    alone.set_entry(&inputs[k], value.clone());
+    contexts.push(alone);
+    let mut among = FeelContext::default();
+    for (j, n) in inputs.iter().enumerate() {
+      among.set_entry(n, if j == k { value.clone() } else { Value::Number(FeelNumber::from_i128(1)) });
+    }
+    contexts.push(among);
+  }
+  // entries named like the invocables themselves (a decision's variable supplied from outside)
+  let mut shadow = FeelContext::default();
+  for n in &names {
+    shadow.set_entry(&Name::from(n.as_str()), value.clone());
+  }
+  contexts.push(shadow);
+  let mut nonnull = false;
+  for name in &names {
+    for ctx in &contexts {
+      if !me.evaluate_invocable(name, ctx).is_null() {
+        nonnull = true;
+      }
+    }
+  }
+  if nonnull {
+    "evaluates"
+  } else {
+    "evaluates-to-null"
+  }
+}
+
 pub struct Corpus {
   /// (label, text, faults)
   pub models: Vec<(String, String, Vec<Fault>)>,
@@ -276,8 +340,11 @@ fn corpus(family: &str, tier: &str) -> Corpus {
   let skip: Vec<String> = std::env::var("C12_SKIP").unwrap_or_default().split('|').filter(|s| !s.is_empty()).map(|s| s.to_string()).collect();
   let mut models: Vec<(String, String, Vec<Fault>)> = vec![];
   match family {
-    "base" => {
+    "base" | "inputs" => {
       for (l, t) in shipped_models().into_iter().chain(generated_models()) {
+        if family == "inputs" && skip.contains(&l) {
+          continue;
+        }
         models.push((l, t, vec![]));
       }
     }
@@ -332,6 +399,7 @@ fn corpus(family: &str, tier: &str) -> Corpus {
     starts.push(total);
     total += match family {
       "base" => 1,
+      "inputs" => crate::engines::c05::EXTREMES.len() as u64,
       "single" => f.len() as u64,
       "pairs" => (f.len() * f.len()) as u64,
       _ => (t.len() * BYTE_OPS.len()) as u64,
@@ -362,6 +430,7 @@ impl Corpus {
     let (label, text, faults) = &self.models[m];
     match family {
       "base" => Some((text.clone(), json!({"family":"base","model":label,"fault":{"op":"none","site":label}}))),
+      "inputs" => Some((text.clone(), json!({"family":"inputs","model":label,"input_value":crate::engines::c05::EXTREMES[k as usize]}))),
       "single" => {
         let f = &faults[k as usize];
         Some((f.apply(text), json!({"family":"single","model":label,"fault":f.describe()})))
@@ -401,7 +470,7 @@ impl Corpus {
   }
 }
 
-const FAMILIES: [&str; 4] = ["base", "single", "pairs", "bytes"];
+const FAMILIES: [&str; 5] = ["base", "inputs", "single", "pairs", "bytes"];
 
 pub fn worker(args: &[String]) {
   let family = args[0].as_str();
@@ -422,8 +491,12 @@ pub fn worker(args: &[String]) {
       if let Some((text, desc)) = c.mutant(family, idx) {
         let describe = || desc.clone();
         let mut class = "";
+        let input_value = desc.get("input_value").and_then(|v| v.as_str()).map(|v| v.to_string());
         isolate::run_case(&progress, &mut results, idx, &describe, &mut || {
-          class = load_and_invoke(&text);
+          class = match &input_value {
+            Some(v) => invoke_with_input(&text, v),
+            None => load_and_invoke(&text),
+          };
         });
         *classes.entry(class).or_insert(0) += 1;
       }
@@ -563,12 +636,16 @@ pub fn run() {
 /// replay of one recorded mutant (in-process, so a crash is observed as the replay's own death)
 pub fn replay_case(case: &J) -> String {
   let xml = case.get("xml").and_then(|x| x.as_str()).unwrap_or("").to_string();
+  let input_value = case.get("case").and_then(|c| c.get("input_value")).and_then(|v| v.as_str()).map(|v| v.to_string());
   // in a thread with a time limit: a hang is reported, not reproduced without end
   let (tx, rx) = std::sync::mpsc::channel();
   std::thread::Builder::new()
     .stack_size(8 << 20)
     .spawn(move || {
-      let r = std::panic::catch_unwind(|| load_and_invoke(&xml));
+      let r = std::panic::catch_unwind(|| match &input_value {
+        Some(v) => invoke_with_input(&xml, v),
+        None => load_and_invoke(&xml),
+      });
       let _ = tx.send(r.ok());
     })
     .expect("replay thread");
